@@ -23,7 +23,15 @@ C25  pydcop.replication.dist_ucs_hostingcosts.UCSReplication
        discovery.  Termination for ALL deployments/schedules is NOT proved (see desc).
 
 Postconditions are taken from the property statements; shapes and frames from the code
-and its call sites (orchestrator._agents_removal, ResilientAgent.setup_repair)."""
+and its call sites (orchestrator._agents_removal, ResilientAgent.setup_repair).
+
+Frame obligations (labels ``*.frame.*``): the builders and the removal functions read what they are handed - the table of
+binary variables, the candidate-information triple, the assignment a constraint is evaluated on, the departed / orphaned
+lists, discovery and the computation graph (observed through their public queries) - and what they return is the
+receiver's (editing it reaches neither the inputs nor a later answer); the same table / information serves a second
+constraint, a second build.  C25: an offer / removal leaves the agent definition, the active footprints, the other agent's
+discovery and the entries of the other held replicas alone (the paths table and the hosts list ARE updated in place by
+design); a whole search leaves the agent definitions and the deployment tables alone."""
 import itertools
 import random as _pyrandom
 from collections import OrderedDict, deque
@@ -196,7 +204,7 @@ def h_capacity(env):
         asked.append(c_name)
         return fp[c_name]
 
-    bv_before, fp_before = _table(bv), _table(fp)
+    bv_before = _table(bv)
     c = env.call(REP.create_agent_capacity_constraint, own, remaining, footprint_func, bv)
     if isinstance(c, Raised):
         env.prove("capacity.constraint-is-built", False, detail=lambda: c.tb)
@@ -216,18 +224,16 @@ def h_capacity(env):
     d = lambda: dict(assignment=asg, value=got, footprints=fp, remaining=remaining, form=form)  # noqa
     env.prove("capacity.zero-iff-selected-footprints-fit-the-remaining-capacity", Iff(eq(got, 0), fits), detail=d)
     env.prove("capacity.overflow-scores-the-hard-penalty", Implies(Not(fits), eq(got, PENALTY)), detail=d)
-    # frame: tables unchanged; the hosting constraint of the same agent is built from the same table (setup_repair) and the
+    # frame: table of binary variables unchanged; the hosting constraint of the same agent is built from the same table (setup_repair) and the
     # capacity constraint asked again on the same assignment gives the same value
-    env.prove("capacity.frame.binary-variable-and-footprint-tables-unchanged", _table(bv) == bv_before and _table(fp) == fp_before,
-              detail=lambda: (bv_before, _table(bv)))
+    env.prove("capacity.frame.binary-variable-table-unchanged", _table(bv) == bv_before, detail=lambda: (bv_before, _table(bv)))
     other = env.call(REP.create_agent_hosting_constraint, own, footprint_func, bv)
     if not isinstance(other, Raised):
         _evaluate(env, other, asg, form, {"Bc9_a9": 1})
     again = _evaluate(env, c, asg, form, {"Bc9_a9": 1})
     env.prove("capacity.frame.same-value-when-asked-again-after-another-constraint-used-the-same-table",
               (not isinstance(again, Raised)) and eq(again, got), detail=lambda: dict(d(), again=again))
-    env.prove("capacity.frame.binary-variable-and-footprint-tables-unchanged", _table(bv) == bv_before and _table(fp) == fp_before,
-              detail=lambda: (bv_before, _table(bv)))
+    env.prove("capacity.frame.binary-variable-table-unchanged", _table(bv) == bv_before, detail=lambda: (bv_before, _table(bv)))
 
 
 Contract(
@@ -255,7 +261,7 @@ def h_hosting(env):
     def hosting_func(c_name):
         return hc[c_name]
 
-    bv_before, hc_before = _table(bv), _table(hc)
+    bv_before = _table(bv)
     c = env.call(REP.create_agent_hosting_constraint, own, hosting_func, bv)
     if isinstance(c, Raised):
         env.prove("hosting.constraint-is-built", False, detail=lambda: c.tb)
@@ -273,16 +279,14 @@ def h_hosting(env):
         exp = ssum([hc[cn] for cn, b in zip(comps, bits) if b == 1])
         env.prove("hosting.value-is-sum-of-hosting-costs-of-the-selected-computations", eq(got, exp),
                   detail=lambda: dict(assignment=asg, value=got, expected=exp, form=form))
-    # frame: tables unchanged; a second constraint built from the same table follows the same rule (all selected)
-    env.prove("hosting.frame.binary-variable-and-cost-tables-unchanged", _table(bv) == bv_before and _table(hc) == hc_before,
-              detail=lambda: (bv_before, _table(bv)))
+    # frame: table of binary variables unchanged; a second constraint built from the same table follows the same rule (all selected)
+    env.prove("hosting.frame.binary-variable-table-unchanged", _table(bv) == bv_before, detail=lambda: (bv_before, _table(bv)))
     c2 = env.call(REP.create_agent_hosting_constraint, own, hosting_func, bv)
     asg = {bv[(cn, own)].name: 1 for cn in comps}
     got = c2 if isinstance(c2, Raised) else _evaluate(env, c2, asg, form, {"Bc9_a9": 1})
     env.prove("hosting.frame.second-constraint-from-the-same-table-follows-the-same-rule",
               (not isinstance(got, Raised)) and eq(got, ssum([hc[cn] for cn in comps])), detail=lambda: dict(assignment=asg, value=got, form=form))
-    env.prove("hosting.frame.binary-variable-and-cost-tables-unchanged", _table(bv) == bv_before and _table(hc) == hc_before,
-              detail=lambda: (bv_before, _table(bv)))
+    env.prove("hosting.frame.binary-variable-table-unchanged", _table(bv) == bv_before, detail=lambda: (bv_before, _table(bv)))
 
 
 Contract(
@@ -974,7 +978,7 @@ def h_accept(env):
 
     def observe_def(h_):
         ad = stubs[h_].agent_def
-        return [ad.name, ad.capacity, ad.default_route, ad.default_hosting_cost, _table(ad.routes), _table(ad.hosting_costs)] + \
+        return [ad.name, ad.capacity, ad.default_route, ad.default_hosting_cost, sorted(ad.routes), sorted(ad.hosting_costs)] + \
                [ad.route(a) for a in all_agents] + [ad.hosting_cost(cn_) for cn_ in comps] + \
                [c_.footprint() for c_ in stubs[h_].computations()]
 
@@ -988,7 +992,8 @@ def h_accept(env):
         return out
 
     def same_obs(x, y):
-        return len(x) == len(y) and all((a is b) or ((not is_sym(a)) and (not is_sym(b)) and a == b) for a, b in zip(x, y))
+        # symbolic numbers: the same object, else equal for every value of the inputs (an obligation for the solver, no fork)
+        return len(x) == len(y) and And([True if a is b else (eq(a, b) if (is_sym(a) or is_sym(b)) else a == b) for a, b in zip(x, y)])
 
     defs_before = {h_: observe_def(h_) for h_ in hosts}
     history = []
@@ -1122,6 +1127,8 @@ class _RepNet:
                             default_hosting_cost=dep["default_hosting"], hosting_costs=dict(dep["hosting"].get(a, {})))
             active = [_ActiveComp(c, dep["footprint"][c]) for c in dep["comps"].get(a, [])]
             agent = _StubAgent(a, adef, active)
+            self.adefs = getattr(self, "adefs", {})
+            self.adefs[a] = adef
             d = Discovery(a, "addr_" + a)
             for b in dep["agents"]:
                 d.register_agent(b, "addr_" + b, publish=False)
@@ -1238,6 +1245,8 @@ def h_protocol(env):
         k = 1 + (it + p["seed"]) % 3
         _fresh_process_state(U)
         det = lambda: dict(deployment=dep, k=k, schedule=policy, copied=copy_msgs, run=it)  # noqa
+        import copy as _copy
+        dep_before = _copy.deepcopy(dep)
         net = env.call(_RepNet, U, dep, k, copy_msgs)
         if isinstance(net, Raised):
             env.prove("protocol.replication-computations-are-built", False, detail=lambda: (det(), net.tb))
@@ -1266,6 +1275,25 @@ def h_protocol(env):
         if not env.prove("protocol.reaches-quiescence-within-the-step-bound", quiescent, detail=lambda: (det(), steps)):
             return
         if not _check_placement(env, net, dep, k, det):
+            return
+        # frame: the search reads the agent definitions (routes, hosting costs, capacity), it does not write into them
+        allc = [c for a in dep["agents"] for c in dep["comps"][a]]
+        bad = []
+        for a, ad in net.adefs.items():
+            for b in dep["agents"]:
+                exp = 0 if a == b else dep_before["routes"].get(a, {}).get(b, dep_before["default_route"])
+                if ad.route(b) != exp:
+                    bad.append(("route", a, b, ad.route(b), exp))
+            for c in allc + ["zz_unknown"]:
+                exp = dep_before["hosting"].get(a, {}).get(c, dep_before["default_hosting"])
+                if ad.hosting_cost(c) != exp:
+                    bad.append(("hosting_cost", a, c, ad.hosting_cost(c), exp))
+            if ad.capacity != dep_before["capacity"][a] or dict(ad.routes) != dep_before["routes"].get(a, {}) \
+                    or dict(ad.hosting_costs) != dep_before["hosting"].get(a, {}):
+                bad.append(("tables", a, ad.capacity, dict(ad.routes), dict(ad.hosting_costs)))
+        if not env.prove("protocol.frame.agent-definitions-unchanged-by-the-search", not bad, detail=lambda: (det(), bad[:4])):
+            return
+        if not env.prove("protocol.frame.deployment-tables-unchanged", dep == dep_before, detail=lambda: (dep_before, dep)):
             return
 
 
